@@ -91,6 +91,13 @@ inductive Op where
   | save (a p : Nat) (ty : T) (x : Int)
   | load (a p : Nat)
   | panic
+  /-- `let c: Capability = capabilities.get<&g>(/public/q)` (the capability's type is `g`, not the controller's),
+  then `c.check<&w>()` and `c.borrow<&w>()` -/
+  | getBorrow (a q : Nat) (g w : T)
+  /-- `capabilities.publish(capabilities.get<&g>(/public/q), at: /public/q2)` -/
+  | republish (a q : Nat) (g : T) (q2 : Nat)
+  /-- `let c: Capability = getController(byCapabilityID: id)!.capability`, then `c.check<&w>()` / `c.borrow<&w>()` -/
+  | ctrlBorrow (a id : Nat) (w : T)
   deriving Repr
 
 inductive Abort where
@@ -107,6 +114,7 @@ inductive Obs where
   | bool (b : Bool)
   | got (id : Nat) (check : Bool)
   | ref (v : Option (T × Int))
+  | capRef (id : Nat) (v : Option (T × Int))   -- capability value: its id, what check / borrow at the wanted type give
   deriving DecidableEq, Repr
 
 inductive Res (α : Type) where
@@ -126,6 +134,25 @@ def resolve (ac : Acct) (cap : Cap) (w : T) : Option (Ctrl × Option (T × Int))
 def checkOk (w : T) : Option (T × Int) → Bool
   | some (vt, _) => sub vt w
   | none => false
+
+/-- the capability value returned by `capabilities.get<&g>(/public/q)`: id 0 = the invalid capability;
+its borrow type is the *wanted* type `g` either way -/
+def getCap (ac : Acct) (q : Nat) (g : T) : Cap :=
+  match assocFind q ac.published with
+  | none => ⟨0, g⟩
+  | some cap =>
+    match resolve ac cap g with
+    | none => ⟨0, g⟩
+    | some _ => ⟨cap.id, g⟩
+
+/-- `borrow<&w>()` on a capability value (`CapabilityBorrow` → `BorrowCapabilityController`): the wanted type is
+compared with the capability's type *and* with the controller's type, then the stored value is type-checked;
+`check<&w>()` is true exactly when this is `some` -/
+def borrowCap (ac : Acct) (cap : Cap) (w : T) : Option (T × Int) :=
+  if cap.id = 0 then none else
+  match resolve ac cap w with
+  | none => none
+  | some (_, v) => if checkOk w v then v else none
 
 def step (s : State) : Op → Res (State × Obs)
   | .issue a p ty =>
@@ -227,6 +254,17 @@ def step (s : State) : Op → Res (State × Obs)
     | none => .ok (s, .bool false)
     | some _ => .ok (s.set a { ac with storage := assocErase p ac.storage }, .bool true)
   | .panic => .abort .panic
+  | .getBorrow a q g w =>
+    let cap := getCap (s a) q g
+    .ok (s, .capRef cap.id (borrowCap (s a) cap w))
+  | .republish a q g q2 =>
+    let ac := s a
+    if (assocFind q2 ac.published).isSome then .abort .overwrite
+    else .ok (s.set a { ac with published := assocSet q2 (getCap ac q g) ac.published }, .done)
+  | .ctrlBorrow a id w =>
+    match assocFind id (s a).ctrls with
+    | none => .ok (s, .nil)
+    | some c => .ok (s, .capRef id (borrowCap (s a) ⟨id, c.ty⟩ w))
 
 structure TxObs where
   logs : List Obs
